@@ -14,30 +14,36 @@
 (* actions: "sub" "unsub" "pub"(x=1 ok,0 full) "poll"(m,c,x = marked        *)
 (* message, consumer, attempt; m=0 nothing) "fire"(m = timer's message,     *)
 (* c,x = consumer, attempt; c=0 nothing) "emit"(m,c) "recv"(m,c,x=attempt   *)
-(* shown to the consumer) "disc"(m,c: engine dropped the delivery event as  *)
-(* past) "ack" "rej"(x=1 requeue) "tmo"(x=1 an event was returned) "end"    *)
-(* (x=1 the run ended with an empty heap).                                  *)
+(* shown to the consumer) "disc"(m,c,x: engine dropped the delivery event   *)
+(* as past; x = the instant it was stamped with) "ack" "rej"(x=1 requeue)   *)
+(* "tmo"(x=1 an event was returned) "end"(x=1 the run ended with an empty   *)
+(* heap).                                                                   *)
 (*                                                                          *)
-(* Two independent judgements per trace, one verdict line                   *)
-(*   <<"V", id, verdict, pos>> and <<"C", id, conformance, cpos>>                           *)
+(* Two independent judgements per trace, two lines                          *)
+(*   <<"V", id, verdict, pos>>  and  <<"C", id, conformance, cpos>>         *)
 (* verdict: "PROP:<clause>" if a clause of the statement is false on the    *)
-(* OBSERVED execution (computed from the log and the observed states only), *)
-(* else "MODEL:<what>" if the code left the MQueue.tla model (drift), else  *)
-(* "ACCEPT".  conformance repeats the model judgement on its own so that a  *)
-(* PROP verdict can be compared under Dev = {} and Dev = known deviations.  *)
+(* OBSERVED execution (computed from the log and the observed states only;  *)
+(* the first false clause other than the known-defect signature wins, then  *)
+(* "PROP:delivery_discarded_stale_stamp" = the signature of the known       *)
+(* defect, see StaleDiscard), else "MODEL:<what>" if the code left the      *)
+(* MQueue.tla model (drift), else "ACCEPT".  conformance: "OK" or the first *)
+(* model mismatch, judged against MQueue.tla with the constant Dev (the     *)
+(* harness passes the deviations that are open known findings, i.e. the     *)
+(* model of the code as it is).                                             *)
 EXTENDS MQueue, Json, IOUtils
 
 Traces == JsonDeserialize(IOEnv.TRACE_FILE)
 NT == Len(Traces)
 
-VARIABLES ti, l, q, o, bad, badpos, drift, driftpos
-vars == <<ti, l, q, o, bad, badpos, drift, driftpos>>
+VARIABLES ti, l, q, o, bad, badpos, kbad, kpos, drift, driftpos
+vars == <<ti, l, q, o, bad, badpos, kbad, kpos, drift, driftpos>>
 
 CfgOf(T) == [lat |-> T.cfg.lat, rdel |-> T.cfg.rdel, maxr |-> T.cfg.maxr, cap |-> T.cfg.cap, dlq |-> T.cfg.dlq]
 
 Obs0(T) == [p |-> <<>>, f |-> <<>>, lv |-> <<>>, rs |-> <<>>, d |-> <<>>, sb |-> T.subs0, cn |-> <<>>,
             st |-> <<0, 0, 0, 0, 0>>, np |-> 0]
-O0(T) == [owed |-> <<>>, tmr |-> <<>>, ackd |-> {}, gone |-> {}, first |-> 0, marked |-> {}, prev |-> Obs0(T)]
+O0(T) == [owed |-> <<>>, tmr |-> <<>>, ackd |-> {}, gone |-> {}, first |-> 0, marked |-> {}, env |-> SeqSet(T.subs0),
+          prev |-> Obs0(T)]
 
 \* ---------------------------------------------------------------------------
 \* model side: apply record r to model state qq (clock already advanced); result [q, d]
@@ -104,9 +110,15 @@ CntOf(P, m) == IF m <= Len(P.cn) THEN P.cn[m] ELSE 0
 AccountedObs(N, ackd, gone, T) == \A m \in 1..N.np :
     m \in SeqSet(N.p) \/ m \in SeqSet(N.f) \/ m \in ackd \/ m \in SeqSet(N.d) \/ (~T.cfg.dlq /\ m \in gone)
 
+\* The signature of the known defect "stale_now_after_yield" on a failing execution: the delivery event of an
+\* owed delivery was dropped by the engine at its delivery instant because it carried the instant of the
+\* delivery action (one latency earlier).  Reported separately so that every other loss stays a violation.
+OwedIdx(oo, r) == FirstIdx(oo.owed, LAMBDA d : d.m = r.m /\ d.c = r.c /\ d.due = r.t)
+StaleDiscard(oo, r, T) == r.a = "disc" /\ OwedIdx(oo, r) # 0 /\ T.cfg.lat > 0 /\ r.x = r.t - T.cfg.lat
+
 MarkO(oo, m, c, t, T) ==
     LET P == oo.prev
-        b == IF c \notin SeqSet(P.sb) THEN "PROP:delivered_to_unsubscribed_consumer"
+        b == IF c \notin oo.env THEN "PROP:delivered_to_unsubscribed_consumer"
              ELSE IF m \in oo.ackd THEN "PROP:delivered_after_ack"
              ELSE IF m \notin oo.marked /\ m < oo.first THEN "PROP:first_delivery_order"
              ELSE ""
@@ -131,6 +143,13 @@ ApplyO(oo, r, T) ==
            LET k == FirstIdx(oo.owed, LAMBDA d : d.m = r.m /\ d.c = r.c /\ d.due = t) IN
            IF k = 0 THEN [o |-> oo, b |-> "PROP:unrequested_or_mistimed_delivery"]
            ELSE [o |-> [oo EXCEPT !.owed = RemoveAt(@, k)], b |-> ""]
+      [] r.a = "disc" ->      \* the engine dropped a delivery event: that delivery will never be received
+           LET k == OwedIdx(oo, r) IN
+           IF k = 0 THEN [o |-> oo, b |-> ""]
+           ELSE [o |-> [oo EXCEPT !.owed = RemoveAt(@, k)],
+                 b |-> IF StaleDiscard(oo, r, T) THEN "" ELSE "PROP:delivery_event_discarded"]
+      [] r.a = "sub" -> [o |-> [oo EXCEPT !.env = @ \cup {r.c}], b |-> ""]
+      [] r.a = "unsub" -> [o |-> [oo EXCEPT !.env = @ \ {r.c}], b |-> ""]
       [] r.a = "ack" ->
            [o |-> IF r.m \in SeqSet(P.lv) THEN [oo EXCEPT !.ackd = @ \cup {r.m}] ELSE oo, b |-> ""]
       [] r.a = "rej" ->
@@ -160,13 +179,13 @@ TimeO(oo, t) ==
 \* ---------------------------------------------------------------------------
 Start(i) ==
     /\ q' = (IF i <= NT THEN InitQ(CfgOf(Traces[i]), Traces[i].subs0) ELSE InitQ([lat |-> 0, rdel |-> 1, maxr |-> 0, cap |-> 0, dlq |-> FALSE], <<>>))
-    /\ o' = (IF i <= NT THEN O0(Traces[i]) ELSE [owed |-> <<>>, tmr |-> <<>>, ackd |-> {}, gone |-> {}, first |-> 0, marked |-> {}, prev |-> 0])
-    /\ ti' = i /\ l' = 1 /\ bad' = "" /\ badpos' = 0 /\ drift' = "" /\ driftpos' = 0
+    /\ o' = (IF i <= NT THEN O0(Traces[i]) ELSE [owed |-> <<>>, tmr |-> <<>>, ackd |-> {}, gone |-> {}, first |-> 0, marked |-> {}, env |-> {}, prev |-> 0])
+    /\ ti' = i /\ l' = 1 /\ bad' = "" /\ badpos' = 0 /\ kbad' = "" /\ kpos' = 0 /\ drift' = "" /\ driftpos' = 0
 
 Init ==
-    /\ ti = 1 /\ l = 1 /\ bad = "" /\ badpos = 0 /\ drift = "" /\ driftpos = 0
+    /\ ti = 1 /\ l = 1 /\ bad = "" /\ badpos = 0 /\ kbad = "" /\ kpos = 0 /\ drift = "" /\ driftpos = 0
     /\ q = (IF NT >= 1 THEN InitQ(CfgOf(Traces[1]), Traces[1].subs0) ELSE InitQ([lat |-> 0, rdel |-> 1, maxr |-> 0, cap |-> 0, dlq |-> FALSE], <<>>))
-    /\ o = (IF NT >= 1 THEN O0(Traces[1]) ELSE [owed |-> <<>>, tmr |-> <<>>, ackd |-> {}, gone |-> {}, first |-> 0, marked |-> {}, prev |-> 0])
+    /\ o = (IF NT >= 1 THEN O0(Traces[1]) ELSE [owed |-> <<>>, tmr |-> <<>>, ackd |-> {}, gone |-> {}, first |-> 0, marked |-> {}, env |-> {}, prev |-> 0])
 
 Step ==
     LET T == Traces[ti]
@@ -185,6 +204,8 @@ Step ==
         d == IF dt # "" THEN dt ELSE ds
     IN /\ o' = o2
        /\ IF bad = "" /\ b # "" THEN bad' = b /\ badpos' = l ELSE UNCHANGED <<bad, badpos>>
+       /\ IF kbad = "" /\ StaleDiscard(o, r, T)
+          THEN kbad' = "PROP:delivery_discarded_stale_stamp" /\ kpos' = l ELSE UNCHANGED <<kbad, kpos>>
        /\ IF drift # "" THEN UNCHANGED <<q, drift, driftpos>>
           ELSE IF d # "" THEN drift' = d /\ driftpos' = l /\ UNCHANGED q
           ELSE q' = am.q /\ UNCHANGED <<drift, driftpos>>
@@ -192,8 +213,8 @@ Step ==
 
 Finish ==
     LET T == Traces[ti]
-        v == IF bad # "" THEN bad ELSE IF drift # "" THEN drift ELSE "ACCEPT"
-        pos == IF bad # "" THEN badpos ELSE IF drift # "" THEN driftpos ELSE l - 1
+        v == IF bad # "" THEN bad ELSE IF kbad # "" THEN kbad ELSE IF drift # "" THEN drift ELSE "ACCEPT"
+        pos == IF bad # "" THEN badpos ELSE IF kbad # "" THEN kpos ELSE IF drift # "" THEN driftpos ELSE l - 1
     IN /\ PrintT(<<"V", Traces[ti].id, v, pos>>) /\ PrintT(<<"C", Traces[ti].id, IF drift = "" THEN "OK" ELSE drift, driftpos>>)
        /\ Start(ti + 1)
 
